@@ -226,6 +226,8 @@ def run(chk):
                               {"qml": "import qmluic.QtWidgets\nQWidget { TSource { %s: %s } }" % (c["prop"], c["src"]), "expected": c["expect"], "observed": got,
                                "diagnostics": here})
     family(chk)
+    flags_family(chk)
+    nonfinite_family(chk)
     chk.cov["programs"] = len(cases)
     chk.cov["expected_rejections"] = n_rej
     chk.cov["traces_validated_against_impl"] = len(reqs)
@@ -262,6 +264,66 @@ def single(chk, c):
     if msg:
         chk.violation("literal `%s` (%s): %s" % (c["src"], c["expect"], msg), {"qml": qml, "expected": c["expect"], "observed": got,
                                                                                 "syntax_errors": run_.get("syntax_errors"), "diagnostics": run_.get("diags")})
+
+
+def flags_family(chk):
+    """G: constant flag expressions over | & ^ (GenFlags.tla): an embedded <set> denotes the value TLC computed; otherwise the binding is
+    left to run time (header) or diagnosed -- never embedded as another value, never lost"""
+    g = tlc("GenFlags", env={"LIMIT": 200 if chk.tier == "quick" else 2700}, workers=2, seed=chk.seed, timeout=900, coverage=False)
+    tlc_must_pass(g, "GenFlags")
+    chk.add_tlc(g)
+    cases = g.printed("FLAGS")
+
+    def show(e):
+        return "TSource." + e["n"] if e["k"] == "f" else "(%s %s %s)" % (show(e["a"][0]), e["op"], show(e["b"][0]))
+    reqs = [{"id": n, "src": P.HEAD + "  TSource { id: t0\n    opts: %s\n  }\n}\n" % show(c["e"]), "type_name": "Doc", "modes": ["generate"]} for n, c in enumerate(cases)]
+    res = translate(reqs, metatypes=[VERIF_METATYPES])
+    for q, c in zip(reqs, cases):
+        run_ = res[q["id"]]["generate"]
+        chk.count({"flags": show(c["e"])}, nontrivial=c["e"]["k"] == "bin")
+        if run_.get("panic") or not run_.get("ui"):
+            continue
+        got = ui_values(run_["ui"]).get("t0", {}).get("opts")
+        if got:
+            el, attrs, txt, items = got[0]
+            val = 0
+            for name in (txt.split("|") if txt else []):
+                val |= c["enumerators"][name.split("::")[-1]]
+            if el != "set" or val != c["value"]:
+                chk.violation("flag expression `%s` denotes %d but is embedded as <%s>%s</%s> (= %d)" % (show(c["e"]), c["value"], el, txt, el, val),
+                              {"qml": q["src"], "expected_value": c["value"], "embedded": txt})
+        elif not run_.get("n_errors") and "evalT0Opts" not in (run_.get("header") or ""):
+            chk.violation("flag expression `%s` is neither embedded, nor generated, nor diagnosed" % show(c["e"]), {"qml": q["src"], "header": run_.get("header")})
+    chk.cov["flag_expressions"] = len(cases)
+
+
+NONFINITE = {"nan": ["(0.0 / 0.0)", "(1e999 - 1e999)", "((1e308 * 10.0) % 2.0)"], "pinf": ["1e999", "(1.0 / 0.0)", "(1e308 * 10.0)"], "ninf": ["-1e999", "(-1.0 / 0.0)"],
+             "one": ["1.0"], "zero": ["0.0"]}
+
+
+def nonfinite_family(chk):
+    """G: comparisons with operands that fold to NaN / infinities (GenNonFinite.tla, IEEE 754): the embedded <bool> is what TLC says"""
+    g = tlc("GenNonFinite", env={"LIMIT": 1}, workers=1, timeout=600, coverage=False)
+    tlc_must_pass(g, "GenNonFinite")
+    chk.add_tlc(g)
+    cases = g.printed("CMP")
+    reqs, meta = [], []
+    for c in cases:
+        for sa in NONFINITE[c["a"]]:
+            for sb in NONFINITE[c["b"]][:2]:
+                text = "%s %s %s" % (sa, c["op"], sb)
+                reqs.append({"id": len(reqs), "src": P.HEAD + "  TSource { id: t0\n    flag: %s\n  }\n}\n" % text, "type_name": "Doc", "modes": ["generate"]})
+                meta.append((c, text))
+    res = translate(reqs, metatypes=[VERIF_METATYPES])
+    for q, (c, text) in zip(reqs, meta):
+        run_ = res[q["id"]]["generate"]
+        chk.count({"nonfinite": text}, nontrivial=True)
+        if run_.get("panic") or not run_.get("ui") or run_.get("n_errors"):
+            continue        # rejecting a non-finite constant is within the statement; only a wrong embedded value is not
+        got = ui_values(run_["ui"]).get("t0", {}).get("flag")
+        if got and got[0][0] == "bool" and got[0][2] != ("true" if c["holds"] else "false"):
+            chk.violation("`%s` is %s (IEEE 754) but embedded as <bool>%s</bool>" % (text, c["holds"], got[0][2]), {"qml": q["src"], "model": c})
+    chk.cov["nonfinite_comparisons"] = len(reqs)
 
 
 def family(chk):
